@@ -91,6 +91,27 @@ impl J<'_> {
         }
     }
 
+    /// A library operation panicked on an input inside its documented domain:
+    /// violation of kind "panic" with the input as witness.
+    fn panicked(&mut self, what: &str, msg: &str, case: Value) {
+        self.sh.evaluations += 1;
+        self.sh.hit(&format!("panic.{}", what));
+        let sig = format!("c20:panic:{}:{:016x}", what, vmon_core::fnv(case.to_string().as_bytes()));
+        self.sh.violate(self.idx, "panic", sig, format!("{} panicked on an in-domain input: {}", what, msg), case);
+    }
+
+    /// Run a library call; a panic is reported as a violation and yields None.
+    fn lib<T>(&mut self, what: &str, case: impl FnOnce() -> Value, f: impl FnOnce() -> T) -> Option<T> {
+        match vmon_core::catch(f) {
+            Ok(v) => Some(v),
+            Err(m) => {
+                self.panicked(what, &m, case());
+                None
+            }
+        }
+    }
+
+    #[allow(dead_code)]
     fn inconclusive(&mut self, m: String) {
         if self.sh.inconclusive.len() < 5 {
             self.sh.inconclusive.push(m);
@@ -239,7 +260,7 @@ fn case_multiexp<C: Curve>(j: &mut J, r: &mut Rng, cr: &mut CR, curve: &str, max
         let got = match vmon_core::catch(|| gs[i].mul_by_scalar(&scalars[i])) {
             Ok(g) => g,
             Err(m) => {
-                j.inconclusive(format!("mul_by_scalar panicked: {}", m));
+                j.panicked(&format!("mul_by_scalar.{}", curve), &m, json!({"curve": curve, "point": hex(&to_bytes(&gs[i])), "scalar": hex(&to_bytes(&scalars[i]))}));
                 continue;
             }
         };
@@ -248,7 +269,7 @@ fn case_multiexp<C: Curve>(j: &mut J, r: &mut Rng, cr: &mut CR, curve: &str, max
     // the curve's own multiexp
     match vmon_core::catch(|| multiexp::<C, C>(&gs, &scalars)) {
         Ok(got) => j.check(&format!("multiexp.default.{}", curve), got == want, || ("multiexp differs from the naive sum".into(), case(&got, &want, "curve_arithmetic::multiexp"))),
-        Err(m) => j.inconclusive(format!("multiexp panicked: {}", m)),
+        Err(m) => j.panicked(&format!("multiexp.default.{}", curve), &m, json!({"curve": curve, "points": gs.iter().map(|g| hex(&to_bytes(g))).collect::<Vec<_>>(), "scalars": scalars.iter().map(|s| hex(&to_bytes(s))).collect::<Vec<_>>()})),
     }
     j.sh.hit(&format!("multiexp.len.{}", if n == 0 { "0".to_string() } else if n < 3 { "1-2".to_string() } else if n < 30 { "3-29".to_string() } else { "30-40".to_string() }));
     // the generic wNAF implementation at several window sizes
@@ -259,7 +280,7 @@ fn case_multiexp<C: Curve>(j: &mut J, r: &mut Rng, cr: &mut CR, curve: &str, max
     for w in ws {
         match vmon_core::catch(|| GenericMultiExp::<C>::new(&gs, w).multiexp(&scalars)) {
             Ok(got) => j.check(&format!("multiexp.generic.w{}.{}", w, curve), got == want, || (format!("GenericMultiExp with window {} differs from the naive sum", w), case(&got, &want, &format!("GenericMultiExp window {}", w)))),
-            Err(m) => j.inconclusive(format!("GenericMultiExp(w={}) panicked: {}", w, m)),
+            Err(m) => j.panicked(&format!("multiexp.generic.w{}.{}", w, curve), &m, json!({"curve": curve, "window": w, "points": gs.iter().map(|g| hex(&to_bytes(g))).collect::<Vec<_>>(), "scalars": scalars.iter().map(|s| hex(&to_bytes(s))).collect::<Vec<_>>()})),
         }
     }
     j.sh.max("max.multiexp_len", n as u64);
@@ -269,28 +290,63 @@ fn case_multiexp<C: Curve>(j: &mut J, r: &mut Rng, cr: &mut CR, curve: &str, max
 fn case_pedersen<C: Curve>(j: &mut J, r: &mut Rng, cr: &mut CR, curve: &str) -> u64 {
     let ord = order::<C>();
     let nbits = C::Scalar::NUM_BITS as u64;
-    let ck = CommitmentKey::<C>::generate(cr);
+    let ck = CommitmentKey::<C>::new(C::generate(cr), C::generate(cr));
     let (_, v) = gen_scalar(r, &ord, nbits);
-    let (_, rnd) = gen_scalar(r, &ord, nbits);
+    let (_, mut rnd) = gen_scalar(r, &ord, nbits);
     let want = ref_mul(&ck.g, &v).plus_point(&ref_mul(&ck.h, &rnd));
-    let got = ck.hide_worker(&scalar_from_big::<C>(&v, &ord), &scalar_from_big::<C>(&rnd, &ord)).0;
-    j.check(&format!("pedersen.hide.{}", curve), got == want, || ("commitment differs from v*g + r*h".into(), json!({"curve": curve, "g": hex(&to_bytes(&ck.g)), "h": hex(&to_bytes(&ck.h)), "v": v.to_str_radix(16), "r": rnd.to_str_radix(16), "library": hex(&to_bytes(&got)), "reference": hex(&to_bytes(&want))})));
-    let n = r.range(0, 6) as usize;
-    let vk = VecCommitmentKey::<C>::generate(cr, n);
-    let m = r.range(0, n as u64 + 1) as usize;
-    let vals: Vec<BigUint> = (0..m).map(|_| gen_scalar(r, &ord, nbits).1).collect();
-    let svals: Vec<C::Scalar> = vals.iter().map(|v| scalar_from_big::<C>(v, &ord)).collect();
-    let got = vk.hide_worker(&svals, &scalar_from_big::<C>(&rnd, &ord));
-    if m > n {
-        j.check(&format!("pedersen.vec.too_long.{}", curve), got.is_none(), || ("hide_worker produced a commitment for more values than generators".into(), json!({"curve": curve, "generators": n, "values": m})));
-    } else {
+    let mut h = vmon_core::fnv(&to_bytes(&want));
+    let ckcase = || json!({"curve": curve, "g": hex(&to_bytes(&ck.g)), "h": hex(&to_bytes(&ck.h)), "v": v.to_str_radix(16), "r": rnd.to_str_radix(16)});
+    if let Some(got) = j.lib(&format!("pedersen.hide.{}", curve), ckcase, || ck.hide_worker(&scalar_from_big::<C>(&v, &ord), &scalar_from_big::<C>(&rnd, &ord)).0) {
+        j.check(&format!("pedersen.hide.{}", curve), got == want, || ("commitment differs from v*g + r*h".into(), json!({"key": ckcase(), "library": hex(&to_bytes(&got)), "reference": hex(&to_bytes(&want))})));
+    }
+    // vector commitments: k = 0..=n values under an n-base key, and one value too many
+    let n = r.range(0, 5) as usize;
+    let vk = VecCommitmentKey::<C>::new((0..n).map(|_| C::generate(cr)).collect(), C::generate(cr));
+    if rnd.is_zero() {
+        rnd = BigUint::one(); // commit(v; r) vs commit(v || r; 0) needs r != 0
+    }
+    let rnd_s = scalar_from_big::<C>(&rnd, &ord);
+    let all: Vec<BigUint> = (0..n + 1).map(|_| gen_scalar(r, &ord, nbits).1).collect();
+    for k in 0..=n + 1 {
+        let vals = &all[..k];
+        let svals: Vec<C::Scalar> = vals.iter().map(|v| scalar_from_big::<C>(v, &ord)).collect();
+        let vcase = || json!({"curve": curve, "generators": vk.gs.iter().map(|g| hex(&to_bytes(g))).collect::<Vec<_>>(), "h": hex(&to_bytes(&vk.h)), "values": vals.iter().map(|v| v.to_str_radix(16)).collect::<Vec<_>>(), "r": rnd.to_str_radix(16)});
+        let what = format!("pedersen.vec.{}", curve);
+        let got = match j.lib(&what, vcase, || vk.hide_worker(&svals, &rnd_s)) {
+            Some(g) => g,
+            None => continue,
+        };
+        j.sh.hit(&format!("pedersen.vec.values_{}", if k == 0 { "0" } else if k < n { "fewer" } else if k == n { "all" } else { "too_many" }));
+        if k > n {
+            j.check(&format!("pedersen.vec.too_long.{}", curve), got.is_none(), || ("hide_worker produced a commitment for more values than generators".into(), vcase()));
+            continue;
+        }
         let mut want = ref_mul(&vk.h, &rnd);
         for (g, v) in vk.gs.iter().zip(vals.iter()) {
             want = want.plus_point(&ref_mul(g, v));
         }
-        j.check(&format!("pedersen.vec.{}", curve), got.map(|c| c.0) == Some(want), || ("vector commitment differs from sum v_i*g_i + r*h".into(), json!({"curve": curve, "generators": vk.gs.iter().map(|g| hex(&to_bytes(g))).collect::<Vec<_>>(), "h": hex(&to_bytes(&vk.h)), "values": vals.iter().map(|v| v.to_str_radix(16)).collect::<Vec<_>>(), "r": rnd.to_str_radix(16)})));
+        if broken() && k < n {
+            want = want.plus_point(&C::one_point());
+        }
+        h ^= vmon_core::fnv(&to_bytes(&want));
+        let got_pt = got.map(|c| c.0);
+        j.check(&what, got_pt == Some(want), || (format!("vector commitment to {} of {} values differs from sum v_i*g_i + r*h", k, n), json!({"case": vcase(), "library": got_pt.map(|p| hex(&to_bytes(&p))), "reference": hex(&to_bytes(&want))})));
+        // the randomness must go to h, not to the next free generator
+        if k < n {
+            let mut ext = svals.clone();
+            ext.push(rnd_s);
+            if let Some(Some(other)) = j.lib(&what, vcase, || vk.hide_worker(&ext, &C::Scalar::zero())) {
+                j.check(&format!("pedersen.vec.randomness_base.{}", curve), Some(other.0) != got_pt, || ("commit(v; r) equals commit(v || r; 0): the randomness was committed under the next generator instead of h".into(), vcase()));
+            }
+        }
+        // open accepts exactly this commitment
+        if let Some(c) = got {
+            if let Some(ok) = j.lib(&what, vcase, || vk.open(&svals, &concordium_base::pedersen_commitment::Randomness::<C>::new(rnd_s), &c)) {
+                j.check(&format!("pedersen.vec.open.{}", curve), ok, || ("open rejects the commitment it just produced".into(), vcase()));
+            }
+        }
     }
-    vmon_core::fnv(&to_bytes(&want))
+    h
 }
 
 // ------------------------------------------------------------ decoders
@@ -442,7 +498,7 @@ fn judge_decode<T: Deserial + concordium_base::common::Serial>(j: &mut J, ty: &s
     j.sh.hit(&format!("decode.{}.origin.{}", ty, origin));
     j.sh.hit(if accept { "decode.accept.expected" } else { "decode.reject.expected" });
     match got {
-        Err(m) => j.inconclusive(format!("decoder {} panicked on {}: {}", ty, hex(b), m)),
+        Err(m) => j.panicked(&format!("decode.{}", ty), &m, json!({"type": ty, "bytes": hex(b), "classification": cname, "candidate_kind": origin})),
         Ok(res) if origin == "pinned" => {
             j.check_pinned(&format!("decode.{}", ty), res.is_ok() == accept, format!("c20:decode:{}:{}:{}", ty, cname, hex(b)), format!("decoder {} the string although the independent classification is '{}'", if res.is_ok() { "ACCEPTED" } else { "REJECTED" }, cname), json!({"type": ty, "bytes": hex(b), "classification": cname, "candidate_kind": origin, "library_accepts": res.is_ok(), "decodes_to": res.as_ref().ok().map(|v| hex(&to_bytes(v)))}));
         }
@@ -869,7 +925,7 @@ fn case_sharing<C: Curve>(j: &mut J, r: &mut Rng, cr: &mut CR, curve: &str) -> u
     let sd = match vmon_core::catch(|| share::<C, u64, _, _>(&secret_s, xs.clone().into_iter(), Threshold::try_new(t as u8).unwrap(), cr)) {
         Ok(s) => s,
         Err(m) => {
-            j.inconclusive(format!("share panicked: {}", m));
+            j.panicked(&format!("sharing.share.{}", curve), &m, json!({"curve": curve, "n": n, "threshold": t, "points": xs, "secret": secret.to_str_radix(16)}));
             return 0;
         }
     };
@@ -897,7 +953,7 @@ fn case_sharing<C: Curve>(j: &mut J, r: &mut Rng, cr: &mut CR, curve: &str) -> u
         let got = match vmon_core::catch(|| reveal::<u64, C>(&pts)) {
             Ok(g) => g,
             Err(m) => {
-                j.inconclusive(format!("reveal panicked: {}", m));
+                j.panicked(&format!("sharing.reveal.{}", curve), &m, json!({"base": base.clone(), "subset": sub}));
                 return;
             }
         };
@@ -911,7 +967,7 @@ fn case_sharing<C: Curve>(j: &mut J, r: &mut Rng, cr: &mut CR, curve: &str) -> u
         let gpts: Vec<(u64, C)> = sub.iter().map(|&i| (xs[i], ref_mul(&g, &ys[i]))).collect();
         match vmon_core::catch(|| reveal_in_group::<u64, C>(&gpts)) {
             Ok(gp) => j.check(&format!("sharing.reveal_in_group.{}.{}", tag, curve), (gp == secret_pt) == expect_secret, || (format!("reveal_in_group from shares {:?} {} secret*G", sub, if expect_secret { "does not give" } else { "gives" }), base.clone())),
-            Err(m) => j.inconclusive(format!("reveal_in_group panicked: {}", m)),
+            Err(m) => j.panicked(&format!("sharing.reveal_in_group.{}", curve), &m, json!({"base": base.clone(), "subset": sub})),
         }
     };
     let mut tsets = subsets(n, t);
@@ -1016,7 +1072,7 @@ fn case_keys(j: &mut J, r: &mut Rng) -> u64 {
     let vseed = vmon_core::unhex(SLIP10_V1_SEED).unwrap();
     for (path, sk, pk) in SLIP10_V1.iter() {
         let hp: Vec<u32> = path.iter().map(|i| harden(*i)).collect();
-        let lib = derive_from_parsed_path(&hp, &vseed);
+        let lib = vmon_core::catch(|| derive_from_parsed_path(&hp, &vseed)).unwrap_or(Err(DeriveError::InvalidPath));
         let mine = slip10(&vseed, &hp).0;
         let ok = lib.as_ref().map(|k| hex(&k.private_key) == *sk).unwrap_or(false) && hex(&mine) == *sk;
         j.check("keys.slip10.vector1", ok, || ("SLIP-0010 test vector 1 private key mismatch".into(), json!({"path": path, "expected": sk, "library": lib.as_ref().map(|k| hex(&k.private_key)).ok(), "harness": hex(&mine)})));
@@ -1039,34 +1095,34 @@ fn case_keys(j: &mut J, r: &mut Rng) -> u64 {
     match vmon_core::catch(|| derive_from_parsed_path(&hp, &seed)) {
         Ok(Ok(k)) => j.check("keys.slip10.random", k.private_key == mine, || ("derive_from_parsed_path differs from the independent SLIP-0010".into(), json!({"case": case.clone(), "library": hex(&k.private_key), "harness": hex(&mine)}))),
         Ok(Err(e)) => j.check("keys.slip10.random", false, || (format!("derive_from_parsed_path failed: {}", e), case.clone())),
-        Err(m) => j.inconclusive(format!("derive_from_parsed_path panicked: {}", m)),
+        Err(m) => j.panicked("keys.derive_from_parsed_path", &m, case.clone()),
     }
     if plen > 0 {
         let ps = format!("m/{}", idxs.iter().map(|i| format!("{}'", i)).collect::<Vec<_>>().join("/"));
         match vmon_core::catch(|| derive(&ps, &seed)) {
             Ok(Ok(k)) => j.check("keys.slip10.string_path", k.private_key == mine, || ("derive(path string) differs from the independent SLIP-0010".into(), json!({"case": case.clone(), "path_string": ps, "library": hex(&k.private_key)}))),
             Ok(Err(e)) => j.check("keys.slip10.string_path", false, || (format!("derive failed on a valid path: {}", e), json!({"path_string": ps}))),
-            Err(m) => j.inconclusive(format!("derive panicked: {}", m)),
+            Err(m) => j.panicked("keys.derive", &m, json!({"case": case.clone(), "path_string": ps})),
         }
         // documented rejections: non-hardened element, element >= 2^31
         let k = r.below(plen as u64) as usize;
         let bad1 = format!("m/{}", idxs.iter().enumerate().map(|(i, x)| if i == k { format!("{}", x) } else { format!("{}'", x) }).collect::<Vec<_>>().join("/"));
-        j.check("keys.slip10.reject.unhardened", matches!(derive(&bad1, &seed), Err(DeriveError::InvalidPath)), || ("a path with a non-hardened element was accepted".into(), json!({"path_string": bad1})));
+        j.check("keys.slip10.reject.unhardened", matches!(vmon_core::catch(|| derive(&bad1, &seed).map(|_| ())), Ok(Err(DeriveError::InvalidPath))), || ("a path with a non-hardened element was accepted".into(), json!({"path_string": bad1})));
         let bad2 = format!("m/{}", idxs.iter().enumerate().map(|(i, x)| if i == k { "2147483648'".to_string() } else { format!("{}'", x) }).collect::<Vec<_>>().join("/"));
-        j.check("keys.slip10.reject.out_of_range", matches!(derive(&bad2, &seed), Err(DeriveError::InvalidPath)), || ("a path with an element >= 2^31 was accepted".into(), json!({"path_string": bad2})));
+        j.check("keys.slip10.reject.out_of_range", matches!(vmon_core::catch(|| derive(&bad2, &seed).map(|_| ())), Ok(Err(DeriveError::InvalidPath))), || ("a path with an element >= 2^31 was accepted".into(), json!({"path_string": bad2})));
         let mut raw = hp.clone();
         raw[k] &= 0x7fff_ffff;
-        j.check("keys.slip10.reject.unhardened_index", matches!(derive_from_parsed_path(&raw, &seed).map(|_| ()), Err(DeriveError::InvalidPath)), || ("derive_from_parsed_path accepted a non-hardened index".into(), json!({"path": raw})));
+        j.check("keys.slip10.reject.unhardened_index", matches!(vmon_core::catch(|| derive_from_parsed_path(&raw, &seed).map(|_| ())), Ok(Err(DeriveError::InvalidPath))), || ("derive_from_parsed_path accepted a non-hardened index".into(), json!({"path": raw})));
     }
     for bad_len in [0usize, 15, 65] {
         let s = r.bytes(bad_len);
-        j.check("keys.slip10.reject.seed_length", matches!(derive_from_parsed_path(&hp, &s).map(|_| ()), Err(DeriveError::InvalidSeed)), || ("a seed outside 16..=64 bytes was accepted".into(), json!({"seed_length": bad_len})));
+        j.check("keys.slip10.reject.seed_length", matches!(vmon_core::catch(|| derive_from_parsed_path(&hp, &s).map(|_| ())), Ok(Err(DeriveError::InvalidSeed))), || ("a seed outside 16..=64 bytes was accepted".into(), json!({"seed_length": bad_len})));
     }
     // sensitivity: one bit of the seed, one index
     {
         let bit = r.below(8 * seed.len() as u64) as usize;
         let s2 = flipped(&seed, bit);
-        if let (Ok(a), Ok(b)) = (derive_from_parsed_path(&hp, &seed), derive_from_parsed_path(&hp, &s2)) {
+        if let Ok((Ok(a), Ok(b))) = vmon_core::catch(|| (derive_from_parsed_path(&hp, &seed), derive_from_parsed_path(&hp, &s2))) {
             j.check("keys.slip10.seed_sensitive", a.private_key != b.private_key, || ("flipping a seed bit does not change the key".into(), case.clone()));
         }
     }
@@ -1085,7 +1141,7 @@ fn case_keys(j: &mut J, r: &mut Rng) -> u64 {
                 j.check(&format!("keys.{}", name), got == mine && !got.is_zero(), || (format!("{} differs from the IETF KeyGen transcription", name), json!({"case": kcase.clone(), "library": got.to_str_radix(16), "harness": mine.to_str_radix(16)})));
             }
             Ok(Err(_)) => j.check(&format!("keys.{}", name), false, || (format!("{} failed", name), kcase.clone())),
-            Err(m) => j.inconclusive(format!("{} panicked: {}", name, m)),
+            Err(m) => j.panicked(&format!("keys.{}", name), &m, kcase.clone()),
         }
     }
     // --- wallet
@@ -1108,8 +1164,12 @@ fn case_keys(j: &mut J, r: &mut Rng) -> u64 {
         let w = ConcordiumHdWallet { seed: ws, net };
         let w2 = ConcordiumHdWallet { seed: ws, net };
         let wcase = json!({"seed": hex(&ws), "net": net.net_code(), "identity_provider": ip, "identity": id, "credential": cc});
-        let (sk, sk2, pk) = match (w.get_account_signing_key(ip, id, cc), w2.get_account_signing_key(ip, id, cc), w.get_account_public_key(ip, id, cc)) {
-            (Ok(a), Ok(b), Ok(c)) => (a, b, c),
+        let (sk, sk2, pk) = match vmon_core::catch(|| (w.get_account_signing_key(ip, id, cc), w2.get_account_signing_key(ip, id, cc), w.get_account_public_key(ip, id, cc))) {
+            Ok((Ok(a), Ok(b), Ok(c))) => (a, b, c),
+            Err(m) => {
+                j.panicked("keys.wallet.get_account_signing_key", &m, wcase.clone());
+                continue;
+            }
             _ => {
                 j.check("keys.wallet.total", false, || ("wallet getters failed on indices below 2^31".into(), wcase.clone()));
                 continue;
@@ -1122,8 +1182,9 @@ fn case_keys(j: &mut J, r: &mut Rng) -> u64 {
         let mut outs: Vec<(String, Vec<u8>)> = vec![("signing_key".into(), sk.to_vec())];
         if cc == base.2 {
             // per-identity values: only once per (net, ip, id)
-            match (w.get_id_cred_sec(ip, id), w2.get_id_cred_sec(ip, id), w.get_prf_key(ip, id), w2.get_prf_key(ip, id), w.get_blinding_randomness(ip, id), w2.get_blinding_randomness(ip, id)) {
-                (Ok(a), Ok(a2), Ok(b), Ok(b2), Ok(c), Ok(c2)) => {
+            match vmon_core::catch(|| (w.get_id_cred_sec(ip, id), w2.get_id_cred_sec(ip, id), w.get_prf_key(ip, id), w2.get_prf_key(ip, id), w.get_blinding_randomness(ip, id), w2.get_blinding_randomness(ip, id))) {
+                Err(m) => j.panicked("keys.wallet.identity_getters", &m, wcase.clone()),
+                Ok((Ok(a), Ok(a2), Ok(b), Ok(b2), Ok(c), Ok(c2))) => {
                     j.check("keys.wallet.deterministic", to_bytes(&a) == to_bytes(&a2) && to_bytes(&b) == to_bytes(&b2) && to_bytes(&c) == to_bytes(&c2), || ("two derivations of idCredSec / prfKey / blinding randomness differ".into(), wcase.clone()));
                     outs.push(("id_cred_sec".into(), to_bytes(&a)));
                     outs.push(("prf_key".into(), to_bytes(&b)));
@@ -1133,7 +1194,7 @@ fn case_keys(j: &mut J, r: &mut Rng) -> u64 {
             }
         }
         let tag = concordium_base::id::types::AttributeTag(r.below(256) as u8);
-        if let (Ok(a), Ok(a2)) = (w.get_attribute_commitment_randomness(ip, id, cc, tag), w2.get_attribute_commitment_randomness(ip, id, cc, tag)) {
+        if let Ok((Ok(a), Ok(a2))) = vmon_core::catch(|| (w.get_attribute_commitment_randomness(ip, id, cc, tag), w2.get_attribute_commitment_randomness(ip, id, cc, tag))) {
             j.check("keys.wallet.deterministic", to_bytes(&a) == to_bytes(&a2), || ("two derivations of the attribute randomness differ".into(), wcase.clone()));
             outs.push((format!("attribute_randomness.{}", tag.0), to_bytes(&a)));
         }
@@ -1148,20 +1209,54 @@ fn case_keys(j: &mut J, r: &mut Rng) -> u64 {
         let w = ConcordiumHdWallet { seed: ws, net: Net::Mainnet };
         let issuer = concordium_base::contracts_common::ContractAddress::new(r.u64v(), r.u64v());
         let vi = gen_index(r);
-        if let (Ok(sk), Ok(sk2), Ok(pk)) = (w.get_verifiable_credential_signing_key(issuer, vi), w.get_verifiable_credential_signing_key(issuer, vi), w.get_verifiable_credential_public_key(issuer, vi)) {
+        if let Ok((Ok(sk), Ok(sk2), Ok(pk))) = vmon_core::catch(|| (w.get_verifiable_credential_signing_key(issuer, vi), w.get_verifiable_credential_signing_key(issuer, vi), w.get_verifiable_credential_public_key(issuer, vi))) {
             j.check("keys.wallet.vc.deterministic", sk == sk2, || ("verifiable credential key not deterministic".into(), json!({"seed": hex(&ws)})));
             j.check("keys.wallet.vc.public_matches_secret", pk == ed25519_dalek::SigningKey::from_bytes(&sk).verifying_key(), || ("verifiable credential public key is not derived from its secret key".into(), json!({"seed": hex(&ws)})));
             let other = concordium_base::contracts_common::ContractAddress::new(issuer.index ^ 1, issuer.subindex);
-            if let Ok(o) = w.get_verifiable_credential_signing_key(other, vi) {
+            if let Ok(Ok(o)) = vmon_core::catch(|| w.get_verifiable_credential_signing_key(other, vi)) {
                 j.check("keys.wallet.vc.distinct", o != sk, || ("different issuers give the same verifiable credential key".into(), json!({"seed": hex(&ws), "issuer": issuer.index, "subindex": issuer.subindex, "index": vi})));
             }
             let prev = seen.insert(sk.to_vec(), "vc".into());
             j.check("keys.wallet.distinct_paths", prev.is_none(), || ("verifiable credential key collides with an account value".into(), json!({"seed": hex(&ws)})));
         }
-        // indices with the top bit set: only counted
-        match w.get_account_signing_key(1 << 31, 0, 0) {
-            Ok(_) => j.sh.hit("keys.wallet.index_top_bit.accepted_not_judged"),
-            Err(_) => j.sh.hit("keys.wallet.index_top_bit.rejected_not_judged"),
+        // Indices >= 2^31 are invalid (`checked_harden` -> `DeriveError::InvalidPath`):
+        // every getter must fail, and must in particular not alias index - 2^31.
+        let big = |x: u32| x | (1u32 << 31);
+        let (ip, id, cc) = base;
+        let tag = concordium_base::id::types::AttributeTag(r.below(256) as u8);
+        type Probe<'a> = (&'static str, Box<dyn Fn() -> Result<Vec<u8>, DeriveError> + 'a>);
+        let mut probes: Vec<(String, Probe)> = vec![];
+        for (pos, (a, b, c)) in [("identity_provider", (big(ip), id, cc)), ("identity", (ip, big(id), cc)), ("credential", (ip, id, big(cc)))] {
+            let w = &w;
+            probes.push((pos.into(), ("get_account_signing_key", Box::new(move || w.get_account_signing_key(a, b, c).map(|k| k.to_vec())))));
+            probes.push((pos.into(), ("get_account_public_key", Box::new(move || w.get_account_public_key(a, b, c).map(|k| k.as_bytes().to_vec())))));
+            probes.push((pos.into(), ("get_attribute_commitment_randomness", Box::new(move || w.get_attribute_commitment_randomness(a, b, c, tag).map(|k| to_bytes(&k))))));
+            if pos != "credential" {
+                probes.push((pos.into(), ("get_id_cred_sec", Box::new(move || w.get_id_cred_sec(a, b).map(|k| to_bytes(&k))))));
+                probes.push((pos.into(), ("get_prf_key", Box::new(move || w.get_prf_key(a, b).map(|k| to_bytes(&k))))));
+                probes.push((pos.into(), ("get_blinding_randomness", Box::new(move || w.get_blinding_randomness(a, b).map(|k| to_bytes(&k))))));
+            }
+        }
+        {
+            let w = &w;
+            let bvi = big(vi);
+            probes.push(("verifiable_credential_index".into(), ("get_verifiable_credential_signing_key", Box::new(move || w.get_verifiable_credential_signing_key(issuer, bvi).map(|k| k.to_vec())))));
+            probes.push(("verifiable_credential_index".into(), ("get_verifiable_credential_public_key", Box::new(move || w.get_verifiable_credential_public_key(issuer, bvi).map(|k| k.as_bytes().to_vec())))));
+        }
+        for (pos, (getter, f)) in probes {
+            let pcase = json!({"seed": hex(&ws), "net": 919, "getter": getter, "index_with_top_bit": pos, "identity_provider": ip, "identity": id, "credential": cc, "verifiable_credential_index": vi});
+            let res = match j.lib(&format!("keys.wallet.{}", getter), || pcase.clone(), || f()) {
+                Some(x) => x,
+                None => continue,
+            };
+            let accepted = if broken() { true } else { res.is_ok() };
+            j.check("keys.wallet.index_not_below_2^31.rejected", !accepted, || (format!("{} accepted an index >= 2^31 in position {} (documented: InvalidPath)", getter, pos), json!({"case": pcase.clone(), "output": res.as_ref().ok().map(|o| hex(o))})));
+            if let Ok(o) = &res {
+                if let Some(prev) = seen.get(o) {
+                    let prev = prev.clone();
+                    j.check("keys.wallet.distinct_paths", false, || ("an index >= 2^31 yields the same output as another index tuple".into(), json!({"first": prev, "second": pcase.clone(), "output": hex(o)})));
+                }
+            }
         }
     }
     vmon_core::fnv(&seed) ^ vmon_core::fnv(&ws)
@@ -1192,7 +1287,8 @@ pub fn run(ctx: &ChildCtx, sh: &mut Shard) {
             14 => {
                 let a = case_pedersen::<ArCurve>(&mut j, &mut r, &mut cr, "g1");
                 let b = case_pedersen::<RistrettoPoint>(&mut j, &mut r, &mut cr, "ristretto");
-                ("pedersen", a ^ b)
+                let c = case_pedersen::<BlsG2>(&mut j, &mut r, &mut cr, "g2");
+                ("pedersen", a ^ b ^ c)
             }
             15 => ("sharing.g1", case_sharing::<ArCurve>(&mut j, &mut r, &mut cr, "g1")),
             16 => ("sharing.ristretto", case_sharing::<RistrettoPoint>(&mut j, &mut r, &mut cr, "ristretto")),
